@@ -1,1 +1,57 @@
-// ---- units/C03/il_glue.rs: IL helpers the AArch64 lifter calls and no other unit has under a precise-enough contract
+// ---- units/C03/il_glue.rs: IL helpers the AArch64 lifter calls. Included inside `pub mod il`.
+// (1) ControlFlowGraph::{new_block, set_entry, set_exit}: the three holes below are VERBATIM COPIES of the holes of
+//     units/C15/cfg_edit.rs (same contracts, proved by unit C15 against the same text; imported here as contracts-only).
+//     units/C15/cfg_edit.rs cannot be included as a whole: it also holds C15's `Scalar::new`, which would collide with the
+//     NAME-precise `Scalar::new` of units/C01/il_glue.rs this unit needs.
+//@ mode contracts-only C15
+impl ControlFlowGraph {
+//@ source lib/il/control_flow_graph.rs
+//@ fn impl ControlFlowGraph :: fn set_entry
+//@ spec
+    requires old(self).cfg_wf(),
+    ensures
+        /*@wf*/ final(self).cfg_wf(),
+        /*@ok*/ old(self).has_block(entry) ==> r is Ok && final(self).entry == Some(entry),
+        /*@missing*/ !old(self).has_block(entry) ==> (r matches Err(e) && e is Custom) && final(self).entry == old(self).entry,
+        /*@frame*/ final(self).graph == old(self).graph && final(self).next_index == old(self).next_index && final(self).next_temp_index == old(self).next_temp_index
+            && final(self).exit == old(self).exit && final(self).ssa_form == old(self).ssa_form,
+//@ end
+
+//@ fn impl ControlFlowGraph :: fn set_exit
+//@ spec
+    requires old(self).cfg_wf(),
+    ensures
+        /*@wf*/ final(self).cfg_wf(),
+        /*@ok*/ old(self).has_block(exit) ==> r is Ok && final(self).exit == Some(exit),
+        /*@missing*/ !old(self).has_block(exit) ==> (r matches Err(e) && e is Custom) && final(self).exit == old(self).exit,
+        /*@frame*/ final(self).graph == old(self).graph && final(self).next_index == old(self).next_index && final(self).next_temp_index == old(self).next_temp_index
+            && final(self).entry == old(self).entry && final(self).ssa_form == old(self).ssa_form,
+//@ end
+
+//@ fn impl ControlFlowGraph :: fn new_block
+//@ spec
+    requires old(self).cfg_wf(), old(self).next_index < usize::MAX,
+    ensures
+        /*@ok*/ r is Ok,
+        /*@block*/ r matches Ok(b) ==> b.index == old(self).next_index && b.next_instruction_index == 0
+            && b.instructions@ == Seq::<Instruction>::empty() && b.phi_nodes@ == Seq::<PhiNode>::empty(),
+        /*@vertices*/ r matches Ok(b) ==> !old(self).has_block(old(self).next_index)
+            && final(self).graph.vertices@ == old(self).graph.vertices@.insert(old(self).next_index, *final(b)),
+        /*@edges*/ final(self).graph.edges == old(self).graph.edges,
+        /*@counter*/ final(self).next_index == old(self).next_index + 1,
+        /*@frame*/ final(self).next_temp_index == old(self).next_temp_index && final(self).entry == old(self).entry
+            && final(self).exit == old(self).exit && final(self).ssa_form == old(self).ssa_form,
+        /*@wf*/ r matches Ok(b) ==> (final(b).index == old(self).next_index && final(b).block_wf() ==> final(self).cfg_wf()),
+//@ end
+}
+//@ mode full
+
+// (2) Scalar::temp (lib/il/scalar.rs): a scalar named by `format!("temp_0x{:X}", index)`. Verus gives `format!` no
+//     specification, so the contract says nothing about the NAME (that temporaries do not collide with the architectural
+//     scalars x0..x30 / sp / n / z / c / v is therefore NOT decided here; bounded check only).
+impl Scalar {
+//@ fn lib/il/scalar.rs :: impl Scalar :: fn temp
+//@ spec
+    ensures /*@fields*/ r.bits == bits && r.ssa is None,
+//@ end
+}
